@@ -97,7 +97,7 @@ def generate(tier, rng):
     nmax, csmax = (24, 10) if quick else (60, 24)
     cases += list(_cb_cases(nmax, csmax))
     # the same chunkings seen through data_chunk (blocks of rows), 1-D and 2-D data alternating
-    for c in _cb_cases(*((14, 7) if quick else (30, 12))):
+    for c in _cb_cases(*((14, 7) if quick else (26, 11))):
         i = c['inp']
         cases.append({'kind': 'chunked_data', 'inp': {'n': i['n'], 'cs': i['cs'], 'ov': i['ov'],
                                                        'ndim': 1 + (i['n'] + i['cs'] + i['ov']) % 2}})
@@ -107,7 +107,7 @@ def generate(tier, rng):
             for b in range(-9, 10):
                 cases.append({'kind': 'data_chunk', 'inp': {'n': n, 't': [a, b], 'tuple': True, 'wo': (a + b) % 2 == 0,
                                                              'ndim': 1 + (a % 2), 'dflt': b % 3 == 0}})
-    for _ in range(400 if quick else 4000):
+    for _ in range(400 if quick else 2000):
         cases.append(_rand_dc(rng))
     # excerpts
     en, ek, es = (24, 6, 8) if quick else (48, 9, 12)
